@@ -138,6 +138,43 @@ def all_variant_cuts(fn, fat32):
     return cut
 
 
+def bulk_primitive(facts, callee):
+    """element width of a helper that moves a slice of integers one primitive at a time
+    (`fn write_u16_le_slice(&mut self, src: &[u16]) { for n in src { self.write_u16_le(*n)?; } Ok(()) }`), else None.
+    The helper's own body is what is judged: one loop over its slice parameter, one LE primitive per element, no other
+    transfer."""
+    short = callee.rsplit('::', 1)[-1]
+    cands = [f for n, f in facts.fns.items() if f.crate == 'fatfs' and n.rsplit('::', 1)[-1] == short and
+             (n == callee or (f.impl_trait and callee.startswith(f.impl_trait + '::')))]
+    if len(cands) != 1:
+        return None
+    f = cands[0]
+    if f.argc != 2:
+        return None
+    prims = [(b, t) for b, t in f.calls() if (t.get('callee') or '').rsplit('::', 1)[-1] in WIDTH]
+    other_io = [(b, t) for b, t in f.calls() if (t.get('callee') or '').rsplit('::', 1)[-1] in
+                ('write_all', 'write', 'read_exact', 'read', 'seek', 'serialize', 'deserialize')]
+    loops = f.loops()
+    if len(prims) != 1 or other_io or len(loops) != 1:
+        return None
+    pb, pt = prims[0]
+    body = next(iter(loops.values()))
+    if pb not in body:
+        return None
+    d = Deps(f)
+    iters = [(b, t) for b, t in f.calls() if (t.get('callee') or '').endswith(('IntoIterator::into_iter', '[T]::iter', '[T]::iter_mut'))
+             and b not in body]
+    if len(iters) != 1 or ('param', 2) not in d.of_operand(iters[0][1]['args'][0]):
+        return None
+    pty = f.local_ty(2)
+    for _ in range(2):
+        if pty is not None and pty.get('k') in ('ref', 'ptr'):
+            pty = f.types[pty['to']]
+    if pty is None or pty.get('k') != 'slice':
+        return None
+    return WIDTH[(pt.get('callee') or '').rsplit('::', 1)[-1]]
+
+
 def encoder_sequence(facts, fn, fat32=None, depth=0):
     """[(width, field)] written on the Ok path for the given variant"""
     deps = Deps(fn)
@@ -171,6 +208,12 @@ def encoder_sequence(facts, fn, fat32=None, depth=0):
             sub = encoder_sequence(facts, facts.fns[callee], fat32, depth + 1)
             seq += sub
             continue
+        elif 'write' in short and len(t['args']) == 2 and bulk_primitive(facts, callee):
+            ew = bulk_primitive(facts, callee)
+            st, _ = an.state_before_term(b)
+            ln = an.len_of_ref_operand(st, t['args'][1]) if st is not None else None
+            w = ew * ln[0] if ln and ln[0] == ln[1] else None
+            field = self_field_of_operand(fn, deps, t['args'][1], an=an)
         else:
             continue
         if la is not None:
@@ -223,6 +266,12 @@ def decoder_sequence(facts, fn, fat32=None, depth=0, struct_adt=None, variant_pr
         elif short == 'deserialize' and callee in facts.fns and depth < 3:
             seq += decoder_sequence(facts, facts.fns[callee], fat32, depth + 1)
             continue
+        elif 'read' in short and len(t['args']) == 2 and bulk_primitive(facts, callee):
+            ew = bulk_primitive(facts, callee)
+            st, _ = an.state_before_term(b)
+            ln = an.len_of_ref_operand(st, t['args'][1]) if st is not None else None
+            w = ew * ln[0] if ln and ln[0] == ln[1] else None
+            field = self_field_of_operand(fn, deps, t['args'][1], an=an)
         else:
             continue
         mult = 1
